@@ -14,6 +14,14 @@ func (l *Local) Readdir(offset uint64, count uint32) (p9.Dirents, error) {
 		cursor = uint64(0)
 	)
 
+	// Entries are numbered from 1 in directory order, and a call returns
+	// the entries that follow number offset. The directory stream keeps its
+	// position between calls, so start over and skip what the caller has
+	// already been given.
+	if _, err := l.file.Seek(0, io.SeekStart); err != nil {
+		return nil, err
+	}
+
 	for len(p9Ents) < int(count) {
 		singleEnt, err := l.file.Readdirnames(1)
 
@@ -27,7 +35,7 @@ func (l *Local) Readdir(offset uint64, count uint32) (p9.Dirents, error) {
 		cursor++
 
 		// cursor \in (offset, offset+count)
-		if cursor < offset || cursor > offset+uint64(count) {
+		if cursor <= offset {
 			continue
 		}
 
